@@ -164,6 +164,14 @@ prop("C16", level="exploration",
      stages=[dict(name="mergepatch", driver="c16_mergepatch", flagset="asan", quick=60000, thorough=12000000)])
 
 
+# additional property definitions live in vlib/propdefs/<id>.py (each module calls props.prop(...))
+def _load_propdefs():
+    import pkgutil
+    from . import propdefs
+    for m in sorted(pkgutil.iter_modules(propdefs.__path__), key=lambda x: x.name):
+        importlib.import_module("vlib.propdefs." + m.name)
+
+
 def stage_specs(tier):
     specs = []
     for pid, p in PROPS.items():
@@ -253,3 +261,6 @@ def replay(pid, path):
         return 1
     print("replay: signature %s did not reproduce" % rp["signature"])
     return 0
+
+
+_load_propdefs()
